@@ -52,6 +52,30 @@ def unrule(anchor):
 
 
 REOPEN = ("reopen",)
+OBS = ("obs",)
+
+
+def resolve(lru):
+    return ("resolve", lru)
+
+
+def prefix_edit_ops():
+    """Every route by which the attached-prefix map changes (besides automatic creation)."""
+    return [
+        create(Ax),
+        create(Axy, Bb),
+        delete(0),
+        delete(1),
+        delete(0, "first"),
+        delete(1, "plusforeign"),
+        addprefix(Ab, 0),
+        addprefix(Axy, 1),
+        rmprefix(Ax),
+        rmprefix(A),
+        rmprefix(Aw, "right"),
+        move(Ax, 0),
+        move(Ab, 1),
+    ]
 
 
 def clear(default, rules=()):
